@@ -16,7 +16,8 @@ def check_call(cell, cfg, args):
 
 def generate(tier):
     cells = select_cells('C01', tier,
-                         [c for c in H.CATALOG.values() if c.ref], 3)
+                         [c for c in H.CATALOG.values() if c.ref], 3,
+                         keep=('mix',))
     if tier == 'quick':
         cfgs = lambda c: [rot(c.cid, seed(), 6)]  # noqa: E731
         timeout = 90
